@@ -542,6 +542,43 @@ func jpegFrameText(raw []byte) string {
 	return fmt.Sprintf("%d x %d pixels x %d component(s) at %d bits", w, h, n, p)
 }
 
+// docBudget is the per-stream budget as DOCUMENTED (internal/limits:
+// "StreamBudget returns the cumulative memory budget for decoding a PDF
+// stream of rawLen on-disk bytes.  The budget is sized as StreamBudgetBase +
+// min(StreamBudgetMultiplier*rawLen, StreamBudgetHardCap)", with the base
+// documented as 8 MiB, the multiplier as 1024 bytes per byte of raw input
+// and the hard cap as 256 MiB).  Every allocation bound of this check is
+// computed from these numbers, not from the function under test, so that a
+// change of limits.StreamBudget cannot move the oracle along with it.
+func docBudget(rawLen int64) int64 {
+	const (
+		base       = 8 << 20
+		multiplier = 1024
+		hardCap    = 256 << 20
+	)
+	if rawLen < 0 {
+		rawLen = 0
+	}
+	if rawLen > hardCap/multiplier {
+		return base + hardCap
+	}
+	return base + multiplier*rawLen
+}
+
+// budgetFormulaAgrees compares the documented formula with the library for
+// lengths up to the point where the cap sets in.  A disagreement there means
+// the documented constants were changed on purpose: the check can then no
+// longer decide anything and says so (exit 2 of the driver) instead of
+// silently following or fighting the new numbers.
+func budgetFormulaAgrees() (int64, bool) {
+	for _, n := range []int64{0, 1, 15, 1000, 4096, 65536, 100 << 10, 256<<10 - 1, 256 << 10} {
+		if limits.StreamBudget(n) != docBudget(n) {
+			return n, false
+		}
+	}
+	return 0, true
+}
+
 // pullSlack is what a buffering consumer may read beyond the budget: the one
 // probe byte FilterJBIG2.Decode reads to tell truncation from exhaustion, and
 // room for a read-ahead buffer.
@@ -792,9 +829,9 @@ func checkCase(c *Case) error {
 		if err := classifyErr("layered chain: Read", lres.readErr); err != nil {
 			return err
 		}
-		if bound := limits.StreamBudget(int64(len(raw))) + pullSlack; ob.pulled > bound {
+		if bound := docBudget(int64(len(raw))) + pullSlack; ob.pulled > bound {
 			return fmt.Errorf("JBIG2Decode on top of %v pulled %d bytes from the layer below for a stream of %d raw bytes: it buffers its whole input, the stream budget is %d bytes (result: %v)",
-				names[:len(names)-1], ob.pulled, len(raw), limits.StreamBudget(int64(len(raw))), firstErr(lres.openErr, lres.readErr))
+				names[:len(names)-1], ob.pulled, len(raw), docBudget(int64(len(raw))), firstErr(lres.openErr, lres.readErr))
 		}
 	}
 
@@ -803,12 +840,12 @@ func checkCase(c *Case) error {
 	var objBudget, objIn int64
 	for i := range c.Objs {
 		if c.Objs[i].Stream {
-			objBudget += limits.StreamBudget(int64(len(c.Objs[i].Body)))
+			objBudget += docBudget(int64(len(c.Objs[i].Body)))
 			objIn += int64(len(c.Objs[i].Body))
 		}
 	}
 	in := int64(len(raw)) + objIn
-	budgets := limits.StreamBudget(int64(len(raw))) + maxChain*objBudget
+	budgets := docBudget(int64(len(raw))) + maxChain*objBudget
 	if int64(alloc) > 2*budgets+4*(in+res.out)+64<<20 {
 		bound := 2*budgets + 4*in + 64<<20
 		if err := confirmPeak(c, "DecodeStream", bound, int64(alloc), func() (runResult, error) { return runChain(c, raw, limit) }); err != nil {
@@ -857,7 +894,7 @@ func checkCase(c *Case) error {
 	// a single filter reading the raw bytes: its working memory is what the
 	// budget accounts for; 2 MiB for decoder state that is not charged
 	// (inflate window, Huffman tables, bufio) and copies of the input
-	bound := limits.StreamBudget(int64(len(raw))) + 2<<20 + 4*int64(len(raw))
+	bound := docBudget(int64(len(raw))) + 2<<20 + 4*int64(len(raw))
 	if int64(dalloc) > bound+2*dres.out {
 		if err := confirmPeak(c, what, bound, int64(dalloc), func() (runResult, error) { return runDirect(c, name, pd, raw, dlimit) }); err != nil {
 			return err
@@ -911,7 +948,7 @@ func confirmPeak(c *Case, what string, bound, tripped int64, f func() (runResult
 	}
 	if p > bound {
 		return fmt.Errorf("%s: live heap grew by %d bytes (cumulative allocation %d) for %d bytes of input; allowed %d (stream budget %d)",
-			what, p, tripped, c.obs.rawLen, bound, limits.StreamBudget(int64(c.obs.rawLen)))
+			what, p, tripped, c.obs.rawLen, bound, docBudget(int64(c.obs.rawLen)))
 	}
 	return nil
 }
@@ -1131,6 +1168,7 @@ func classify(c *Case) (bool, []string) {
 	}
 	if ob.stage2 > 0 {
 		add("alloc-peak-measured")
+		add("alloc-peak-measured/" + c.Origin)
 	}
 	if ob.stage3 > 0 {
 		add("alloc-peak-suspect-cleared-by-forced-collections")
@@ -1200,6 +1238,12 @@ func TestMain(m *testing.M) {
 	// the driver passes "args" verbatim: expand $VERIF_WORK (fuzz cache directory)
 	for i, a := range os.Args {
 		os.Args[i] = strings.ReplaceAll(a, "$VERIF_WORK", os.Getenv("VERIF_WORK"))
+	}
+	if n, ok := budgetFormulaAgrees(); !ok {
+		// no statistics are written: the driver reports the job as undecided
+		fmt.Printf("c08: limits.StreamBudget(%d) = %d, the documented formula (8 MiB + min(1024*n, 256 MiB)) gives %d: the constants this check was written against have changed; not deciding anything\n",
+			n, limits.StreamBudget(n), docBudget(n))
+		os.Exit(0)
 	}
 	if isFuzzWorker() {
 		code := m.Run()
